@@ -610,3 +610,162 @@ B('e_chain_compiled_from_the_unmerged_list', ['C10'], 'R10.c',
 T('e_chain_compiled_through_named_temporaries', ['C10', 'C11'],
   (R, _MERGE, "        merged = tuple(merge_middlewares(getattr(route, 'middlewares', []), app_mws))\n        self.middlewares = merged\n"),
   (R, _CHAIN, '        chain = make_middleware_chain(merged, unbound_route.endpoint, render, provided)\n        self._execute = chain\n'))
+
+# ================================================================== fifth batch (round f)
+# ---- R11.a through the analysed functions binding calls: whatever a callee updates in place is, at that call, an object
+# this binding allocated; and a value a callee hands back is judged as what its returns hand out (its parameters read as
+# the arguments of the call).  (C10's R10.c "resource layers" lives in chain.py and does not read a merge behind a call:
+# the helper shapes below are C11 only.)
+_CLS = 'class BoundRoute(object):\n'
+_OVERLAY = ('def overlay_resources(own, inherited):\n'
+            '    merged = %s\n'
+            '    for name, value in inherited.items():\n'
+            '        merged.setdefault(name, value)\n'
+            '    return merged\n\n\n')
+_OVERLAY_CALL = "        self.resources = overlay_resources(getattr(route, 'resources', None), getattr(app, 'resources', {}))\n"
+_FILL = ('def fill_resources(target, more):\n'
+         '    target.update(more)\n'
+         '    return target\n\n\n')
+B('e_resources_helper_fills_the_mapping_it_is_handed', ['C11'], 'R11.a',
+  (R, _CLS, _OVERLAY % 'own or {}' + _CLS), (R, _RESOURCES, _OVERLAY_CALL))
+T('e_resources_helper_fills_a_copy', ['C11'],
+  (R, _CLS, _OVERLAY % 'dict(own or {})' + _CLS), (R, _RESOURCES, _OVERLAY_CALL))
+B('e_resources_helper_updates_the_applications_mapping', ['C11'], 'R11.a',
+  (R, _CLS, 'def combine_resources(route_resources, app_resources):\n    app_resources.update(route_resources)\n'
+            '    return dict(app_resources)\n\n\n' + _CLS),
+  (R, _RESOURCES, "        self.resources = combine_resources(getattr(route, 'resources', {}), getattr(app, 'resources', {}))\n"))
+T('e_resources_helper_returns_a_star_display', ['C11'],
+  (R, _CLS, 'def combine_resources(route_resources, app_resources):\n    return {**app_resources, **(route_resources or {})}\n\n\n' + _CLS),
+  (R, _RESOURCES, "        self.resources = combine_resources(getattr(route, 'resources', None), getattr(app, 'resources', {}))\n"))
+B('e_resources_routes_mapping_updated_inline', ['C11'], 'R11.a',
+  (R, _RESOURCES, "        app_resources = getattr(app, 'resources', {})\n        for name in app_resources:\n"
+                  "            if name not in route.resources:\n                route.resources[name] = app_resources[name]\n"
+                  '        self.resources = dict(route.resources)\n'))
+B('e_resources_setdefault_loop_on_the_routes_mapping', ['C11'], 'R11.a',
+  (R, _RESOURCES, "        self.resources = getattr(route, 'resources', {})\n"
+                  "        for name, value in getattr(app, 'resources', {}).items():\n            self.resources.setdefault(name, value)\n"))
+B('e_resources_helper_hands_back_its_updated_argument', ['C11'], 'R11.a',
+  (R, _CLS, _FILL + _CLS),
+  (R, _RESOURCES, "        app_resources = getattr(app, 'resources', {})\n"
+                  "        self.resources = fill_resources(app_resources, getattr(route, 'resources', {}))\n"))
+T('e_resources_helper_is_handed_a_copy_to_fill', ['C11'],
+  (R, _CLS, _FILL + _CLS),
+  (R, _RESOURCES, "        app_resources = getattr(app, 'resources', {})\n"
+                  "        self.resources = fill_resources(dict(app_resources), getattr(route, 'resources', {}))\n"))
+B('e_resources_updated_two_calls_down', ['C11'], 'R11.a',
+  (R, _CLS, _FILL + "def bound_resources(route, app):\n"
+                    "    return fill_resources(getattr(app, 'resources', {}), getattr(route, 'resources', {}))\n\n\n" + _CLS),
+  (R, _RESOURCES, '        self.resources = bound_resources(route, app)\n'))
+T('e_resources_copied_two_calls_down', ['C11'],
+  (R, _CLS, _FILL + "def bound_resources(route, app):\n"
+                    "    return fill_resources(dict(getattr(app, 'resources', {})), getattr(route, 'resources', {}))\n\n\n" + _CLS),
+  (R, _RESOURCES, '        self.resources = bound_resources(route, app)\n'))
+B('e_resources_method_updates_the_applications_mapping', ['C11'], 'R11.a',
+  (R, '    def bind(self, app, **kwargs):\n        return BoundRoute(self, app, **kwargs)\n',
+      "    def merged_resources(self, route, app):\n        res = getattr(app, 'resources', None) or {}\n"
+      "        res.update(getattr(route, 'resources', {}))\n        return res\n\n"
+      '    def bind(self, app, **kwargs):\n        return BoundRoute(self, app, **kwargs)\n'),
+  (R, _RESOURCES, '        self.resources = self.merged_resources(route, app)\n'))
+T('e_resources_method_builds_a_new_mapping', ['C11'],
+  (R, '    def bind(self, app, **kwargs):\n        return BoundRoute(self, app, **kwargs)\n',
+      "    def merged_resources(self, route, app):\n        res = dict(getattr(app, 'resources', None) or {})\n"
+      "        res.update(getattr(route, 'resources', {}))\n        return res\n\n"
+      '    def bind(self, app, **kwargs):\n        return BoundRoute(self, app, **kwargs)\n'),
+  (R, _RESOURCES, '        self.resources = self.merged_resources(route, app)\n'))
+B('e_middlewares_helper_extends_the_routes_list', ['C11'], 'R11.a',
+  (R, _CLS, 'def stack_middlewares(own, outer):\n    stack = own if own else []\n    stack[:0] = [mw for mw in outer if mw not in stack]\n'
+            '    return stack\n\n\n' + _CLS),
+  (R, "        self.middlewares = tuple(merge_middlewares(getattr(route, 'middlewares', []), app_mws))\n",
+      "        self.middlewares = tuple(stack_middlewares(getattr(route, 'middlewares', []), app_mws))\n"))
+T('e_resources_star_display_inline', ['C10', 'C11'],
+  (R, _RESOURCES, "        self.resources = {**getattr(app, 'resources', {}), **getattr(route, 'resources', {})}\n"))
+T('e_resources_dict_call_with_star_overlay', ['C10', 'C11'],
+  (R, _RESOURCES, "        self.resources = dict(getattr(app, 'resources', {}), **getattr(route, 'resources', {}))\n"))
+
+# ---- R10.b: what a bound route derives from a URL pattern is derived from the pattern of this binding
+_COMPILE = ('        self.regex, self.converters = _compile_path_pattern(self.pattern,\n'
+            '                                                            self.slash_mode)\n')
+_PATH_ARGS = '        self.path_args = self.converters.keys()\n'
+B('e_path_args_taken_over_when_the_route_has_them', ['C10'], 'R10.b',
+  (R, _PATH_ARGS, "        self.path_args = getattr(route, 'path_args', None) or self.converters.keys()\n"))
+B('e_matcher_compiled_from_the_routes_pattern', ['C10'], 'R10.b',
+  (R, _COMPILE, '        self.regex, self.converters = _compile_path_pattern(route.pattern, self.slash_mode)\n'))
+B('e_converters_kept_from_the_route_being_rebound', ['C10'], 'R10.b',
+  (R, _COMPILE, '        self.regex, converters = _compile_path_pattern(self.pattern, self.slash_mode)\n'
+                "        self.converters = getattr(route, 'converters', converters)\n"))
+B('e_path_args_read_off_the_route_by_a_helper', ['C10'], 'R10.b',
+  (R, _CLS, "def url_names(route, converters):\n    return getattr(route, 'path_args', None) or tuple(converters)\n\n\n" + _CLS),
+  (R, _PATH_ARGS, '        self.path_args = url_names(route, self.converters)\n'))
+B('e_url_provider_names_of_the_original_route', ['C10'], 'R10.b',
+  (R, "        src_provides_map = {'url': set(self.converters),", "        src_provides_map = {'url': set(getattr(unbound_route, 'converters', self.converters)),"))
+B('e_matcher_compiled_from_the_unprefixed_pattern_named', ['C10'], 'R10.b',
+  (R, _COMPILE, '        inner_pattern = route.pattern\n        self.regex, self.converters = _compile_path_pattern(inner_pattern, self.slash_mode)\n'))
+T('e_path_args_tuple_of_the_converters', ['C10', 'C11'],
+  (R, _PATH_ARGS, '        self.path_args = tuple(self.converters)\n'))
+T('e_pattern_and_matcher_through_named_temporaries', ['C10', 'C11'],
+  (R, '        self.pattern = prefix + route.pattern\n', '        pattern = prefix + route.pattern\n        self.pattern = pattern\n'),
+  (R, _COMPILE + _PATH_ARGS, '        regex, converters = _compile_path_pattern(self.pattern, self.slash_mode)\n'
+                             '        self.regex = regex\n        self.converters = converters\n        self.path_args = list(converters)\n'))
+T('e_path_args_listed_by_a_helper_from_the_converters', ['C10', 'C11'],
+  (R, _CLS, 'def url_names(converters):\n    return tuple(converters.keys())\n\n\n' + _CLS),
+  (R, _PATH_ARGS, '        self.path_args = url_names(self.converters)\n'))
+
+# ---- R11.c: the new routes form one block in their own order (the k-th goes to start + k)
+_INS_LOOP = '        for br in bound_routes:\n            self.routes.insert(index, br)\n            index += 1\n'
+B('e_add_back_to_front_at_the_requested_index', ['C11'], 'R11.c',
+  (A, _INS_LOOP, '        for br in bound_routes[::-1]:\n            self.routes.insert(index, br)\n'))
+B('e_add_position_never_advanced', ['C11'], 'R11.c',
+  (A, _INS_LOOP, '        for br in bound_routes:\n            self.routes.insert(index, br)\n'))
+B('e_add_offsets_over_the_reversed_block', ['C11'], 'R11.c',
+  (A, _INS_LOOP, '        for offset, br in enumerate(reversed(bound_routes)):\n            self.routes.insert(index + offset, br)\n'))
+B('e_add_position_advanced_only_for_leaf_routes', ['C11'], 'R11.c',
+  (A, _INS_LOOP, '        for br in bound_routes:\n            self.routes.insert(index, br)\n            if not br.is_branch:\n                index += 1\n'))
+B('e_add_back_to_front_floor_clamped_only', ['C11'], 'R11.c',
+  (A, _INS_LOOP, '        index = max(index, 0)\n        for br in reversed(bound_routes):\n            self.routes.insert(index, br)\n'))
+T('e_add_back_to_front_at_a_position_in_the_table', ['C11'],
+  (A, _INS_LOOP, '        index = min(index, len(self.routes))\n        for br in reversed(bound_routes):\n            self.routes.insert(index, br)\n'))
+
+# ---- a bind option the caller wrote (False included) wins over the route factory's default
+_ADD_SLASH_DEFAULT = "        kwargs.setdefault('inherit_slashes', getattr(rf, 'inherit_slashes', True))\n"
+_ADD_RENDER_DEFAULT = "        kwargs.setdefault('rebind_render', getattr(rf, 'rebind_render', True))\n"
+B('e_add_explicit_false_slash_option_taken_for_unset', ['C10'], 'R10.e',
+  (A, _ADD_SLASH_DEFAULT, "        if not kwargs.get('inherit_slashes'):\n            kwargs['inherit_slashes'] = getattr(rf, 'inherit_slashes', True)\n"))
+B('e_add_explicit_false_render_option_replaced_by_or', ['C10'], 'R10.e',
+  (A, _ADD_RENDER_DEFAULT, "        kwargs['rebind_render'] = kwargs.get('rebind_render') or getattr(rf, 'rebind_render', True)\n"))
+T('e_add_options_defaulted_when_absent', ['C10', 'C11'],
+  (A, _ADD_RENDER_DEFAULT, "        if 'rebind_render' not in kwargs:\n            kwargs['rebind_render'] = getattr(rf, 'rebind_render', True)\n"))
+B('e_add_slash_option_of_the_factory_forced', ['C10'], 'R10.e',
+  (A, _ADD_SLASH_DEFAULT, "        kwargs['inherit_slashes'] = getattr(rf, 'inherit_slashes', True)\n"))
+T('e_add_slash_option_read_back_with_the_default', ['C10', 'C11'],
+  (A, _ADD_SLASH_DEFAULT, "        kwargs['inherit_slashes'] = kwargs.get('inherit_slashes', getattr(rf, 'inherit_slashes', True))\n"))
+B('e_resources_private_helper_fills_the_mapping_it_is_handed', ['C11'], 'R11.a',
+  (R, _CLS, (_OVERLAY % 'own or {}').replace('overlay_resources', '_overlay_resources') + _CLS),
+  (R, _RESOURCES, _OVERLAY_CALL.replace('overlay_resources', '_overlay_resources')))
+T('e_resources_private_helper_fills_a_copy', ['C11'],
+  (R, _CLS, (_OVERLAY % 'dict(own or {})').replace('overlay_resources', '_overlay_resources') + _CLS),
+  (R, _RESOURCES, _OVERLAY_CALL.replace('overlay_resources', '_overlay_resources')))
+# the merging helper lives in another module of the package and is called through the module
+_SINTER_HELPER = ('def fill_mapping(target, more):\n    target.update(more)\n    return target\n\n\n'
+                  'def get_fb(f, drop_self=True):\n')
+B('e_resources_filled_by_a_function_of_another_module', ['C11'], 'R11.a',
+  (S, 'def get_fb(f, drop_self=True):\n', _SINTER_HELPER),
+  (R, 'import re\n', 'import re\nfrom . import sinter\n'),
+  (R, _RESOURCES, "        self.resources = sinter.fill_mapping(getattr(app, 'resources', {}), getattr(route, 'resources', {}))\n"))
+T('e_resources_copy_filled_by_a_function_of_another_module', ['C11'],
+  (S, 'def get_fb(f, drop_self=True):\n', _SINTER_HELPER),
+  (R, 'import re\n', 'import re\nfrom . import sinter\n'),
+  (R, _RESOURCES, "        self.resources = sinter.fill_mapping(dict(getattr(app, 'resources', {})), getattr(route, 'resources', {}))\n"))
+B('e_resources_helper_in_place_union_on_its_argument', ['C11'], 'R11.a',
+  (R, _CLS, 'def overlay_resources(own, inherited):\n    merged = own if own is not None else {}\n'
+            '    merged |= {k: v for k, v in inherited.items() if k not in merged}\n    return merged\n\n\n' + _CLS),
+  (R, _RESOURCES, _OVERLAY_CALL))
+B('e_resources_procedure_fills_the_routes_mapping_then_copied', ['C11'], 'R11.a',
+  (R, _CLS, 'def fill_missing(target, source):\n    for name in source:\n        if name not in target:\n'
+            '            target[name] = source[name]\n\n\n' + _CLS),
+  (R, _RESOURCES, "        route_resources = getattr(route, 'resources', {})\n"
+                  "        fill_missing(route_resources, getattr(app, 'resources', {}))\n        self.resources = dict(route_resources)\n"))
+T('e_resources_procedure_fills_a_copy_of_the_routes_mapping', ['C11'],
+  (R, _CLS, 'def fill_missing(target, source):\n    for name in source:\n        if name not in target:\n'
+            '            target[name] = source[name]\n\n\n' + _CLS),
+  (R, _RESOURCES, "        route_resources = dict(getattr(route, 'resources', {}))\n"
+                  "        fill_missing(route_resources, getattr(app, 'resources', {}))\n        self.resources = route_resources\n"))
